@@ -192,6 +192,18 @@ func runC14(w *core.WorkerCtx, idx int) *core.CaseResult {
 			check(trace[len(trace)-1])
 			continue
 		}
+		if r.Intn(9) == 0 {
+			// the coordinator pushes a new configuration in which only the job's metric relabel rules differ
+			rs = RuleSets[r.Intn(len(RuleSets))]
+			if err := rg.in.PushConfig(fmt.Sprintf(rigConfigTmpl, "10s", rs.YAML)); err != nil {
+				res.Inconcl = "reload: " + err.Error()
+				break
+			}
+			rg.hookClients()
+			trace = append(trace, "reload: metric relabel rules of j1 are now "+rs.Name)
+			res.AddStat("rule_reloads", 1)
+			continue
+		}
 		h := uint64(1 + r.Intn(nT))
 		n := r.PickI(0, 1, 3, 10, 40, 200)
 		if big {
@@ -291,7 +303,7 @@ func init() {
 	core.Register(&core.Prop{
 		ID:    "C14",
 		Level: "exploration",
-		Rule: "case = one real sidecar (service + proxy + targets manager) with one of 6 metric_relabel_configs programs whose per-sample outcome is known by construction, a scripted Prometheus head count, 2-5 targets spread over two jobs (one with the rule set, one without), and a seed-determined sequence of 4-24 operations (scrape with a generated payload of 0-200 samples - sometimes 3000-6000, i.e. several parser blocks - duplicates included, gzip or identity, through Proxy.ServeHTTP; failing scrapes of three kinds; re-assignments with new estimates); after every operation /targets/status/, /runtimeinfo/, /samples/?with_metrics_detail=true (unfiltered and filtered by either job) and the in-process LastScrapeStatistics are compared with an arithmetic reference; runs from the -race binary; " +
+		Rule: "case = one real sidecar (service + proxy + targets manager) with one of 6 metric_relabel_configs programs whose per-sample outcome is known by construction, a scripted Prometheus head count, 2-5 targets spread over two jobs (one with the rule set, one without), and a seed-determined sequence of 4-24 operations (scrape with a generated payload of 0-200 samples - sometimes 3000-6000, i.e. several parser blocks - duplicates included, gzip or identity, through Proxy.ServeHTTP; failing scrapes of three kinds; re-assignments with new estimates; configuration reloads that change only the job's metric relabel rules); after every operation /targets/status/, /runtimeinfo/, /samples/?with_metrics_detail=true (unfiltered and filtered by either job) and the in-process LastScrapeStatistics are compared with an arithmetic reference; runs from the -race binary; " +
 			"non-trivial = at least two scrapes executed; distinct = (rule set, #targets, head value, operation trace hash)",
 		Assumptions: []string{
 			"expected kept/dropped outcome of each sample is evaluated by plain string predicates written next to each rule set, not by the relabel package",
